@@ -22,7 +22,7 @@ type call struct {
 	kids     []call // calls inside the block, after the marker
 }
 
-var kinds = []string{"slot", "noslot", "twice", "wrap", "flush", "once", "join", "fnIgnore", "fnForward", "argslot", "flushPlain"}
+var kinds = []string{"slot", "noslot", "twice", "wrap", "flush", "once", "join", "fnIgnore", "fnForward", "argslot", "flushPlain", "join1", "join0", "fnNonce"}
 
 const library = `package main
 
@@ -193,6 +193,24 @@ func fnFlushPlain() templ.Component {
 	})
 }
 
+// fnNonce is a hand-written component that sets its own nonce for what it renders before it takes its children
+// (as the documentation prescribes: GetChildren, then ClearChildren) and places them between <o> and </o>.
+func fnNonce() templ.Component {
+	return templ.ComponentFunc(func(ctx context.Context, w io.Writer) error {
+		ctx = templ.WithNonce(ctx, "widget-nonce")
+		children := templ.GetChildren(ctx)
+		ctx = templ.ClearChildren(ctx)
+		if _, err := io.WriteString(w, "<o>"); err != nil {
+			return err
+		}
+		if err := children.Render(ctx, w); err != nil {
+			return err
+		}
+		_, err := io.WriteString(w, "</o>")
+		return err
+	})
+}
+
 // fnForward is a hand-written component that places its children between <g> and </g>.
 func fnForward() templ.Component {
 	return templ.ComponentFunc(func(ctx context.Context, w io.Writer) error {
@@ -235,6 +253,12 @@ func (c call) expr() string {
 		return "cslotArg(eager(ctx, cslot()))"
 	case "flushPlain":
 		return "fnFlushPlain()"
+	case "join1":
+		return "templ.Join(cslot())"
+	case "join0":
+		return "templ.Join()"
+	case "fnNonce":
+		return "fnNonce()"
 	}
 	panic(c.kind)
 }
@@ -306,6 +330,11 @@ func render(cs []call, onceDone *bool) string {
 			b.WriteString("<sdata-a=\"" + html.EscapeString("<s></s>") + "\">" + block() + "</s>")
 		case "flushPlain":
 			b.WriteString("<p>" + block() + "</p>")
+		case "join1":
+			b.WriteString("<s></s>")
+		case "join0":
+		case "fnNonce":
+			b.WriteString("<o>" + block() + "</o>")
 		}
 	}
 	return b.String()
@@ -388,6 +417,14 @@ func (d *dyn) calls(cs []call) string {
 		case "flushPlain":
 			ch := d.take()
 			b.WriteString("<p>" + d.block(ch) + "</p>")
+		case "join1":
+			d.take()
+			b.WriteString("<s></s>")
+		case "join0":
+			d.take()
+		case "fnNonce":
+			ch := d.take()
+			b.WriteString("<o>" + d.block(ch) + "</o>")
 		case "slot":
 			ch := d.take()
 			b.WriteString("<s>" + d.block(ch) + "</s>")
@@ -568,6 +605,7 @@ func main() {
 				sb.WriteString(progs[i].src() + "\n")
 				bt.Names = append(bt.Names, progs[i].name)
 				jobs = append(jobs, rt.Job{T: progs[i].name, FailAt: -1})
+				jobs = append(jobs, rt.Job{T: progs[i].name, FailAt: -1, Nonce: "page-nonce"}) // as behind a CSP middleware
 				n++
 				if n == 100 {
 					flush()
